@@ -724,6 +724,19 @@ class Engine:
             return V(z3.BoolVal(n.id == "True"), BOOL)
         raise Unsupported(f"unknown name {n.id}", n)
 
+    def e_NamedExpr(self, n: ast.NamedExpr, st: State) -> V:
+        """`name := value` (in a loop / branch condition): binds the local, yields the value"""
+        if self.mode_spec or self.in_comprehension:
+            raise Unsupported("assignment expression in a clause / comprehension", n)
+        v = self.expr(n.value, st)
+        if getattr(v, "empty_lit", False):
+            raise Unsupported("assignment expression with an untyped empty literal", n)
+        declared = getattr(self, "local_types", {}).get(n.target.id)
+        if declared is not None:
+            v = self.coerce(v, declared)
+        st.env[n.target.id] = v
+        return v
+
     def e_JoinedStr(self, n: ast.JoinedStr, st: State) -> V:
         """An f-string is an uninterpreted *function* of its interpolated values (one symbol per template text and argument
         sorts): the same template over equal values is the same string, in code and in clauses alike; nothing else is known
